@@ -114,7 +114,26 @@ fn lib_script(bytes: &[u8], coinbase: bool) -> Result<Script, Failure> {
     if coinbase {
         Script::from_coinbase_bytes(bytes).map_err(|e| failure("construct_script", e.to_string(), "Ok"))
     } else {
-        lib_call("construct_script", || Script::from_bytes(bytes))?.map_err(|e| failure("construct_script", format!("Err({}) for {}", e, short_hex(bytes)), "Ok: well-formed script"))
+        let parsed = lib_call("construct_script", || Script::from_bytes(bytes))?.map_err(|e| failure("construct_script", format!("Err({}) for {}", e, short_hex(bytes)), "Ok: well-formed script"))?;
+        // the script object is obtained by one of five routes chosen by its bytes
+        let built = match bytes.iter().fold(7u8, |a, x| a.wrapping_mul(13).wrapping_add(*x)) % 5 {
+            1 => lib_call("Script::from_hex", || Script::from_hex(&hex::encode(bytes)))?.map_err(|e| failure("construct_script", format!("from_hex Err({})", e), "Ok"))?,
+            2 => {
+                let mut s = Script::default();
+                for bit in parsed.to_script_bits() {
+                    s.push(bit);
+                }
+                s
+            }
+            3 => {
+                let mut s = Script::default();
+                s.push_array(&parsed.to_script_bits());
+                s
+            }
+            4 => Script::from_script_bits(parsed.to_script_bits()),
+            _ => parsed,
+        };
+        Ok(built)
     }
 }
 
@@ -323,7 +342,7 @@ impl Property for C01 {
     const ID: &'static str = "C01";
 
     fn rule() -> String {
-        "Structured transactions (version/locktime/sequence/vout/value from boundary sets incl. non-palindromic patterns; 0..n inputs/outputs with padding classes crossing 252/253 and 65535/65536; scripts from the full script grammar incl. 64 KiB pushes; null-outpoint inputs with opaque scripts, near-null outpoints) are encoded by an independent encoder, parsed by the library and compared field by field with an independent decoder, id against reference SHA-256d, and rebuilt through five construction-API variants; byte-level mutants, compact-size field substitutions (every form, extreme values) and splices are checked for normalisation to a fixed point and agreement with a tolerant reference decoder; VarInt helper against the canonical compact-size rule. Non-trivial = count or script length at a compact-size boundary, a (near-)null outpoint, a non-palindromic 32-bit field, an accepted non-canonical string, or a varint >= 253; distinct by hash of the serialised case.".into()
+        "Structured transactions (version/locktime/sequence/vout/value from boundary sets incl. non-palindromic patterns; 0..n inputs/outputs with padding classes crossing 252/253 and 65535/65536; scripts from the full script grammar incl. 64 KiB pushes; null-outpoint inputs with opaque scripts, near-null outpoints) are encoded by an independent encoder, parsed by the library and compared field by field with an independent decoder, id against reference SHA-256d, and rebuilt through five construction-API variants with script objects obtained by five routes (bytes, hex, element-wise push, push_array, from_script_bits); byte-level mutants, compact-size field substitutions (every form, extreme values) and splices are checked for normalisation to a fixed point and agreement with a tolerant reference decoder; VarInt helper against the canonical compact-size rule. Non-trivial = count or script length at a compact-size boundary, a (near-)null outpoint, a non-palindromic 32-bit field, an accepted non-canonical string, or a varint >= 253; distinct by hash of the serialised case.".into()
     }
 
     fn assumptions() -> Vec<String> {
